@@ -3,6 +3,7 @@
    reader — NoNmiAtEnd (refinement, empty-buffer reads) and DstepBounded (totality) — and a
    concrete wire (BLOCK = 8, three blocks) on which the hypotheses of the refinement theorem
    hold and the reader runs. *)
+From MLA Require Import Limit.
 From MLA Require Import Base Stream CompLayer CompLayerProofs CompFailSafe CompFailSafeProofs CompFailSafeStep
   CompFailSafeToy CompLayerS CompLayerSProofs CompLayerSRefine CompLayerSTotal.
 From Coq Require Import ZifyBool ZifyNat ZifyN.
